@@ -62,7 +62,7 @@ def design_buffer(tier, seed):
         cfg = os.path.join(d, "MC.cfg")
         open(cfg, "w").write("SPECIFICATION Spec\nCONSTANTS N = %d Maximum = %d Chunk = %d MaxReq = %d Loop = TRUE\n"
                              "INVARIANTS Bounds OverflowOnlyIfTooSmall\nPROPERTY Completed\nCHECK_DEADLOCK FALSE\nVIEW View\n" % (n, mx, ch, rq))
-        rc, txt = vlib.run(["java", "-XX:+UseParallelGC", "-cp", vlib.TLC_JAR, "tlc2.TLC", "-workers", "8", "-metadir", os.path.join(d, "md"),
+        rc, txt = vlib.run(["java", "-XX:+UseParallelGC", "-cp", vlib.TLC_JAR, "tlc2.TLC", "-noGenerateSpecTE", "-workers", "8", "-metadir", os.path.join(d, "md"),
                             "-config", cfg, "BufferInput.tla"], 1200, cwd=vlib.SPEC)
         shutil.rmtree(d, ignore_errors=True)
         m = re.search(r"(\d+) states generated, (\d+) distinct states found", txt)
@@ -120,7 +120,7 @@ def design_pegcore_run(tier, seed):
         cfg = os.path.join(d, "MC.cfg")
         open(cfg, "w").write("SPECIFICATION Spec\nCONSTANTS Levels = %d MaxLen = %d ExcOps = %s AllCfgs = %s Stride = %d Offset = %d Wide = %s\n"
                              "INVARIANTS NoVerdict ResultOK\nCHECK_DEADLOCK FALSE\n" % (lv, ml, exo, allc, stride, off, wide))
-        rc, txt = vlib.run(["java", "-XX:+UseParallelGC", "-Xss64m", "-Xmx24g", "-cp", vlib.TLC_JAR, "tlc2.TLC", "-workers", "16",
+        rc, txt = vlib.run(["java", "-XX:+UseParallelGC", "-Xss64m", "-Xmx24g", "-cp", vlib.TLC_JAR, "tlc2.TLC", "-noGenerateSpecTE", "-workers", "16",
                             "-metadir", os.path.join(d, "md"), "-config", cfg, "MC_PegCore.tla"], 14000, cwd=vlib.SPEC)
         shutil.rmtree(d, ignore_errors=True)
         m = re.search(r"(\d+) states generated, (\d+) distinct states found", txt)
@@ -161,7 +161,7 @@ def design_analyze(tier, seed):
         cfg = os.path.join(d, "MC.cfg")
         # VisitAll = TRUE: the sor loop as it is in the tree since the fix (the pinned tree's loop is VisitAll = FALSE)
         open(cfg, "w").write("SPECIFICATION Spec\nCONSTANTS VisitAll = TRUE TwoRules = %s MaxLen = %d\nINVARIANT Sound\nCHECK_DEADLOCK FALSE\n" % (two, maxlen))
-        rc, txt = vlib.run(["java", "-XX:+UseParallelGC", "-Xss64m", "-cp", vlib.TLC_JAR, "tlc2.TLC", "-workers", "16", "-metadir", os.path.join(d, "md"),
+        rc, txt = vlib.run(["java", "-XX:+UseParallelGC", "-Xss64m", "-cp", vlib.TLC_JAR, "tlc2.TLC", "-noGenerateSpecTE", "-workers", "16", "-metadir", os.path.join(d, "md"),
                             "-config", cfg, "MC_Analyze.tla"], 3000, cwd=vlib.SPEC)
         shutil.rmtree(d, ignore_errors=True)
         m = re.search(r"(\d+) states generated, (\d+) distinct states found", txt)
@@ -260,6 +260,7 @@ PROPS = {
                 "non-trivial = control hook events validated by TLC",
     },
     "C18": {
+        "extra": design_pegcore_for("C18"),
         "families": ["lim"],
         "must_count": ["den", "cases"],
         "nontrivial_key": "den",
